@@ -11,6 +11,8 @@ export GOFLAGS=-mod=mod GOPROXY=off GOSUMDB=off GOTOOLCHAIN=local
 ids=$(python3 -c "import checks_config as c; print(' '.join(sorted(c.PROPS)))")
 for d in seeded/benign/C*; do
   name=$(basename $d)
+  # optional arguments: only the changes whose name matches one of the given shell patterns
+  if [ $# -gt 0 ]; then m=0; for pat in "$@"; do case "$name" in $pat) m=1;; esac; done; [ $m = 1 ] || continue; fi
   git -C "$VP_RUN_REPO" checkout -q -- . ; git -C "$VP_RUN_REPO" clean -fdq
   git -C "$VP_RUN_REPO" apply "$PWD/$d/patch.diff" || { echo "$name: patch does not apply"; continue; }
   (cd "$VP_RUN_REPO" && go build ./... && go build -tags verif ./...) >/dev/null 2>&1 || { echo "$name: does not build"; continue; }
